@@ -170,6 +170,15 @@ def check(spec):
         res.label("split_state_penetrates_skipped")
         res.inconclusive += 1
         return res
+    if system.nla_N:
+        gN_, gNd_ = system.g_N(tq, qk), system.g_N_dot(tq, qk, uk)
+        closed_ = np.isclose(gN_, 0.0, atol=1e-8)
+        if np.any(closed_ & (gNd_ < 0) & ~np.isclose(gNd_, 0.0, atol=1e-8)):
+            # a closed contact that still approaches (the position-level BackwardEuler step ends an impact this way):
+            # assembly rejects such initial states by design (C16)
+            res.label("split_state_approaching_closed_contact_skipped:" + solver)
+            res.inconclusive += 1
+            return res
     if system.nla_g and (np.max(np.abs(system.g(tq, qk))) > 1e-9 or np.max(np.abs(system.g_dot(tq, qk, uk))) > 1e-9):
         # Moreau (position drift) and BackwardEuler (velocity level) do not produce states that satisfy the
         # constraints on both levels; assembly rejects such initial states by design (C16)
@@ -185,8 +194,17 @@ def check(spec):
             res.fail("run_to_split_time_equals_prefix_of_full_run", site, None, feats, f"split step {k}")
             return res
     copy = system.deepcopy()
-    with quiet():
-        copy.set_new_initial_state(qk.copy(), uk.copy(), tq, options=opts)  # an exception here is a failure 'raises'
+    try:
+        with quiet():
+            copy.set_new_initial_state(qk.copy(), uk.copy(), tq, options=opts)  # an exception here is a failure 'raises'
+    except AssertionError as e:
+        if "does not converge" in str(e):
+            # the consistency solve announces that its fixed-point iteration stalled (frictional contact scenes):
+            # nothing to restart; the announcement itself is C16's / C21's subject
+            res.inconclusive += 1
+            res.label("restart_consistency_solve_stalled")
+            return res
+        raise
     res.ok()
 
     # ---- the copy describes the same model ---------------------------------------------------------
